@@ -6,6 +6,7 @@ import warnings
 import bs4
 import soupsieve as sv
 
+import enc
 import gen
 from props import common_match
 
@@ -148,7 +149,14 @@ def make_cases_factory(state):
                                                  'got': len(got), 'want': len(want)})
                 except Exception as e:
                     state['bad'].append({'selector': sel, 'namespaces': nsmap, 'markup': markup, 'parser': parser, 'exception': repr(e)})
-                cases.append({'markup': markup, 'parser': parser, 'selector': sel, 'ns': nsmap, 'queries': [('select', [], 0)]})
+                # the same question asked from inside the tree: the call target may itself be a foreign (non-XHTML) element
+                qs = [('select', [], 0)]
+                foreign = [e for e in els if e.namespace not in (None, gen.XHTML)]
+                for e in rng.sample(els, min(2, len(els))) + rng.sample(foreign, min(2, len(foreign))):
+                    qs.append(('select', enc.path_of(e), 0))
+                    qs.append(('match', enc.path_of(e), 0))
+                    qs.append(('closest', enc.path_of(e), 0))
+                cases.append({'markup': markup, 'parser': parser, 'selector': sel, 'ns': nsmap, 'queries': qs})
         return cases[:n]
     return make_cases
 
